@@ -23,6 +23,12 @@ def short(t):
     return t.replace(NS, '')
 
 
+def tkey(f):
+    """identity of a function in the scope graph: template-free qualified name + canonical parameter types (so overloads
+    and the instantiations for different label types stay apart)"""
+    return '%s#%s' % (f.tname, ','.join(f.cptypes))
+
+
 class Model:
     def __init__(self, program, std=None):
         self.p = program
@@ -167,3 +173,49 @@ class Model:
         if fn.record is None:
             return fn.tname.startswith(NS + 'io::') or fn.tname.startswith(NS + 'algorithms::')
         return fn.record in GRAPH_CLASSES and fn.access == 'public'
+
+
+    # ------------------------------------------------------------------ scopes (tname-level call graph)
+    def tname_graph(self):
+        if not hasattr(self, '_tg'):
+            g = defaultdict(set)
+            for f in self.fns:
+                for _, c in self.callees(f):
+                    g[tkey(f)].add(tkey(c))
+            self._tg = g
+        return self._tg
+
+    def class_entry_tnames(self, cls):
+        """public members of a class, including members re-exported with using-declarations"""
+        out = set()
+        for f in self.fns:
+            if f.record == cls and f.access == 'public':
+                out.add(tkey(f))
+            if f.record and (f.record.startswith(cls + '::')):
+                out.add(tkey(f))        # nested helper structs (Edges, constEdgeIterator)
+        for u in self.p.units:
+            if u.std != self.std:
+                continue
+            for r in u.records:
+                if r['tname'] == cls:
+                    for us in r['usings']:
+                        for t in us['targets']:
+                            for f in self.by_tname.get(t['tname'], []):
+                                out.add(tkey(f))
+        return out
+
+    def tkeys_of(self, tname):
+        return {tkey(f) for f in self.by_tname.get(tname, [])}
+
+    def closure_tnames(self, entries):
+        """closure over the overload-aware key graph (see tkey)"""
+        g = self.tname_graph()
+        seen = set()
+        stack = list(entries)
+        while stack:
+            t = stack.pop()
+            if t in seen:
+                continue
+            seen.add(t)
+            stack.extend(g.get(t, ()))
+        return seen
